@@ -33,7 +33,7 @@ RULE = ("lattice: cases = (filter node subset, storage order), executions = resp
         "non-trivial = distinct (filter, SED grid) pairs whose overlap is non-empty and whose filter has a non-zero response")
 ASSUMPTIONS = ["non-negative responses, strictly positive distinct frequencies", "lattice exhaustive; beyond it a finite seed-derived family"]
 REQUIRED_CLASSES = ['bin-edge-on-filter-end', 'several-nodes-in-one-bin', 'filter-decreasing-nu', 'sed-decreasing-nu', 'partial-overlap-low', 'partial-overlap-high',
-                    'filter-outside-sed', 'empty-bin', 'normalized-flat', 'linearity', 'file-filter', 'pkg-v1', 'pkg-v2', 'pkg-errors', 'irregular', 'seds-with-different-grids']
+                    'filter-outside-sed', 'empty-bin', 'normalized-flat', 'linearity', 'file-filter', 'pkg-v1', 'pkg-v2', 'pkg-errors', 'irregular', 'seds-with-different-grids', 'filter-nu-in-other-unit']
 TIMEOUT = {'quick': 600, 'thorough': 3000}
 
 LAT_F = [2, 3, 4, 5, 6]
@@ -84,13 +84,13 @@ def evidence_extra(ctx):
             'alphabet_digest': 'seed=%d' % ctx['seed']}
 
 
-def _mkfilter(nu, resp, name='f', cw=1.0):
+def _mkfilter(nu, resp, name='f', cw=1.0, nu_unit='Hz'):
     from astropy import units as u
     from sedfitter.filter import Filter
     f = Filter()
     f.name = name
     f.central_wavelength = cw * u.micron
-    f.nu = np.array(nu, dtype=float) * u.Hz
+    f.nu = (np.array(nu, dtype=float) * u.Hz).to(u.Unit(nu_unit))
     f.response = np.array(resp, dtype=float)
     return f
 
@@ -224,7 +224,19 @@ def _irr_grids(seed, i):
 def _irregular(ctx, case, rec):
     from astropy import units as u
     fx, fy, sx = _irr_grids(ctx['seed'], case['i'])
-    f = _mkfilter(fx, fy)
+    nu_unit = ['Hz', 'THz', 'GHz'][case['i'] % 3]
+    f = _mkfilter(fx, fy, nu_unit=nu_unit)
+    if nu_unit != 'Hz':
+        rec.cls('filter-nu-in-other-unit')
+    if case['i'] % 2 and float(sum(fy)) > 0:
+        # normalised in memory: the integral over frequency (in Hz) must become 1
+        f.normalize()
+        fy = np.asarray(f.response, float)
+        R0, over0, tot0 = convref.rebin_exact((np.asarray(fx) * 1.0), fy, sx)
+        rec.ev()
+        if abs(float(tot0) - 1.0) > 1e-11:
+            rec.violation('normalize|integral', {'i': case['i'], 'nu_unit': nu_unit}, {'integral_over_Hz_after_normalize': float(tot0)})
+            return
     R, over, tot = convref.rebin_exact(fx, fy, sx)
     rec.cls('irregular')
     try:
